@@ -577,6 +577,34 @@ func checkPrivateBuffers(p *core.Prog, r *core.Report, h *handlerInfo, handle *s
 					writeBufOK = true
 				}
 			}
+			// the Write may sit in a helper that receives the buffer: then every caller must pass the pooled buffer
+			if !writeBufOK && len(org) == 1 {
+				for i, prm := range fn.Params {
+					if !org["param:"+prm.Name()] {
+						continue
+					}
+					sites := staticCalls(p).callers[fn]
+					all := len(sites) > 0
+					for _, cs := range sites {
+						args := sx.Args(cs.Instr)
+						ok := false
+						if i < len(args) {
+							ao := sx.Origins(args[i])
+							for g := range getters {
+								if ao["call:"+sx.FuncName(g)] && len(ao) == 1 {
+									ok = true
+								}
+							}
+						}
+						if !ok {
+							all = false
+						}
+					}
+					if all {
+						writeBufOK = true
+					}
+				}
+			}
 			r.Check(writeBufOK, "C02-R4", h.Name+": Write argument is the pooled line buffer", p.Pos(in.Pos()), "argument derives only from the buffer obtained in this call", "Write argument derives from "+keys(org))
 		})
 	}
